@@ -223,5 +223,88 @@ class IncrementalBuild(Bounded):
             shutil.rmtree(top, ignore_errors=True)
 
 
+class MultiOutputStep(Bounded):
+    """A step with several outputs (a generated header and a generated source) whose outputs are consumed by different
+    objects: after the generator's input changes, ONE run of make rebuilds every object that consumes an output (the
+    one including the header and the one compiled from the source), and the next run rebuilds nothing; clean removes
+    the outputs and the stamp, and the build after clean works."""
+    target = 'bfg9000/backends/make/writer.py::multitarget_rule'
+    properties = ('C07', 'C03')
+    reason = 'behaviour of GNU make on the generated rules over an edit history: runtime contract with the real tools'
+    native_chunk = 1
+
+    def native_inputs(self, case, alphabet, maxlen, rng, extra=0):
+        yield {'outputs': ['gen/conf.h', 'gen/conf.c']}
+        yield {'outputs': ['gen/conf.c', 'gen/conf.h']}
+        yield {'outputs': ['conf.h', 'sub dir/conf.c']}
+
+    def native_check(self, case, raw):
+        import shutil, subprocess, tempfile
+        from pyvc.interp import REPO
+        outs = raw['outputs']
+        hdr = [o for o in outs if o.endswith('.h')][0]
+        csrc = [o for o in outs if o.endswith('.c')][0]
+        top = tempfile.mkdtemp(prefix='pyvc_multi_')
+        try:
+            src, b = top + '/src', top + '/b'
+
+            def w(rel, text):
+                fp = src + '/' + rel
+                _os.makedirs(_os.path.dirname(fp), exist_ok=True)
+                with open(fp, 'w') as f:
+                    f.write(text)
+            w('build.bfg', "project('m')\ngen = build_step(%r, cmd=['sh', source_file('gen.sh'), source_file('value.txt'), %r, %r])\n"
+                           "by = {o.path.suffix: o for o in gen}\n"
+                           "executable('prog', files=['main.c', by[%r]], includes=[by[%r]])\n" % (outs, hdr, csrc, csrc, hdr))
+            w('gen.sh', 'v=$(cat "$1")\necho "#define V $v" > "$2"\necho "int conf(void) { return $v; }" > "$3"\n')
+            w('value.txt', '3\n')
+            w('main.c', '#include "%s"\nint conf(void);\nint main(void) { return V * 10 + conf(); }\n' % _os.path.basename(hdr))
+            _os.makedirs(top + '/bin')
+            for name, mod in (('bfg9000', 'bfg9000.driver'), ('bfg9000-depfixer', 'bfg9000.depfixer')):
+                lp = top + '/bin/' + name
+                with open(lp, 'w') as f:
+                    f.write("#!/bin/sh\nPYTHONPATH=%s exec /venv/bin/python -c 'import sys; sys.argv[0] = \"%s\"; "
+                            "from %s import main; sys.exit(main())' \"$@\"\n" % (REPO, lp, mod))
+                _os.chmod(lp, 0o755)
+            env = dict(_os.environ, PATH=top + '/bin:/venv/bin:' + _os.environ['PATH'])
+            env.pop('MAKEFLAGS', None)
+
+            def run(cmd, **kw):
+                return subprocess.run(cmd, env=env, capture_output=True, text=True, timeout=300, **kw)
+
+            def make(*a):
+                r = run(['make', '-C', b] + list(a))
+                return r.returncode, r.stdout + r.stderr
+            r = run([top + '/bin/bfg9000', 'configure-into', src, b, '--backend=make', '--no-resolve-packages'])
+            if r.returncode != 0:
+                return self.fail(case, raw, 'configure_succeeds', stderr=r.stderr[-500:])
+            rc, out = make()
+            if rc != 0 or run([b + '/prog']).returncode != 33:
+                return self.fail(case, raw, 'first_build_succeeds', output=out[-600:])
+            rc, out = make()
+            if rc != 0 or 'cc ' in out or 'gen.sh' in out:
+                return self.fail(case, raw, 'second_build_does_nothing', output=out[-400:])
+            import time
+            time.sleep(0.05)            # modification times have nanosecond resolution here
+            w('value.txt', '4\n')
+            rc, out = make()
+            got = run([b + '/prog']).returncode
+            if rc != 0 or got != 44:
+                return self.fail(case, raw, 'one_build_rebuilds_every_consumer_of_an_output', program_exit=got, expected=44, output=out[-600:])
+            rc, out = make()
+            if rc != 0 or 'cc ' in out or 'gen.sh' in out:
+                return self.fail(case, raw, 'build_after_the_rebuild_does_nothing', output=out[-400:])
+            rc, out = make('clean')
+            left = [o for o in outs + [outs[0] + '.stamp', 'prog'] if _os.path.exists(b + '/' + o)]
+            if rc != 0 or left:
+                return self.fail(case, raw, 'clean_removes_outputs_and_stamp', left=left)
+            rc, out = make()
+            if rc != 0 or run([b + '/prog']).returncode != 44:
+                return self.fail(case, raw, 'build_after_clean_succeeds', output=out[-500:])
+            return True
+        finally:
+            shutil.rmtree(top, ignore_errors=True)
+
+
 def registry():
-    return [DepfixerReference(), CompilerCall(), IncrementalBuild()]
+    return [DepfixerReference(), CompilerCall(), IncrementalBuild(), MultiOutputStep()]
